@@ -28,6 +28,9 @@ Nlv(s) == IF Valuable(s) THEN NlvOf(s) ELSE NaN
 Apply(o) ==
     IF o.op = "quote" THEN [st |-> QuoteF(st, o.c, o.x, o.y), out |-> "ok", trades |-> <<>>]
     ELSE IF o.op = "trade" THEN LET r == TransactF(st, o.c, o.x) IN [st |-> r.st, out |-> r.out, trades |-> <<>>]
+    ELSE IF o.op = "tradeat" THEN LET r == TransactAtF(st, o.c, o.x, o.tb, o.ta) IN [st |-> r.st, out |-> r.out, trades |-> <<>>]
+    ELSE IF o.op = "disc" THEN [st |-> DiscontinueF(st, o.c), out |-> "ok", trades |-> <<>>]
+    ELSE IF o.op = "context" THEN LET r == ValueF(st, TRUE) IN [st |-> r.st, out |-> r.out, trades |-> <<>>]
     ELSE IF o.op = "mark" THEN [st |-> MarkF(st, o.c), out |-> "ok", trades |-> <<>>]
     ELSE IF o.op = "markall" THEN [st |-> MarkAllF(st), out |-> "ok", trades |-> <<>>]
     ELSE IF o.op = "value" THEN LET r == ValueF(st, o.flag) IN [st |-> r.st, out |-> r.out, trades |-> <<>>]
